@@ -287,6 +287,10 @@ func main() {
 		listenerMain()
 		return
 	}
+	if os.Getenv(childEnv) == kefdClientMode {
+		kefdClientMain()
+		return
+	}
 	if os.Getenv(childEnv) == kefdMode {
 		kefdMain()
 		return
